@@ -91,6 +91,56 @@ fn b64(b: &[u8]) -> String {
     out
 }
 
+/// Bech32 (BIP-173) written here from the specification, independently of the crate the resolver decodes with.
+fn bech32_encode(hrp: &str, data: &[u8]) -> String {
+    const CHARSET: &[u8; 32] = b"qpzry9x8gf2tvdw0s3jn54khce6mua7l";
+    fn polymod(v: &[u8]) -> u32 {
+        const GEN: [u32; 5] = [0x3b6a57b2, 0x26508e6d, 0x1ea119fa, 0x3d4233dd, 0x2a1462b3];
+        let mut chk: u32 = 1;
+        for &x in v {
+            let b = chk >> 25;
+            chk = ((chk & 0x1ffffff) << 5) ^ (x as u32);
+            for (i, g) in GEN.iter().enumerate() {
+                if (b >> i) & 1 == 1 {
+                    chk ^= g;
+                }
+            }
+        }
+        chk
+    }
+    let mut v: Vec<u8> = hrp.bytes().map(|c| c >> 5).collect();
+    v.push(0);
+    v.extend(hrp.bytes().map(|c| c & 31));
+    let mut d5: Vec<u8> = vec![];
+    let (mut acc, mut bits) = (0u32, 0u32);
+    for &b in data {
+        acc = ((acc << 8) | b as u32) & 0xfff;
+        bits += 8;
+        while bits >= 5 {
+            bits -= 5;
+            d5.push(((acc >> bits) & 31) as u8);
+        }
+    }
+    if bits > 0 {
+        d5.push(((acc << (5 - bits)) & 31) as u8);
+    }
+    v.extend(&d5);
+    v.extend([0u8; 6]);
+    let pm = polymod(&v) ^ 1;
+    let mut s = String::from(hrp);
+    s.push('1');
+    for x in &d5 {
+        s.push(CHARSET[*x as usize] as char);
+    }
+    for i in 0..6 {
+        s.push(CHARSET[((pm >> (5 * (5 - i))) & 31) as usize] as char);
+    }
+    s
+}
+
+/// Human-readable parts of Cardano addresses (CIP-5): payment and reward addresses, main and test networks.
+const ADDRESS_HRPS: [&str; 4] = ["addr", "addr_test", "stake", "stake_test"];
+
 const BECH32_A: &str = "addr1qx0rs5qrvx9qkndwu0w88t0xghgy3f53ha76kpx8uf496m9rn2ursdm3r0fgf5pmm4lpufshl8lquk5yykg4pd00hp6quf2hh2";
 
 fn random_json(r: &mut Rng, depth: u32) -> Value {
@@ -167,6 +217,19 @@ pub fn run(opts: &Opts, out: &mut Emitter) {
         if k % 16 == 0 {
             let data = tx3_resolver::interop::bech32_to_bytes(BECH32_A).map(|d| hx(&d)).unwrap_or_default();
             emit_fj(out, "address:bech32", json!(BECH32_A), Type::Address, json!({"address": data}));
+        }
+        if k % 4 == 1 {
+            // every kind of address (CIP-5 prefixes), both lengths, encoded here
+            let hrp = ADDRESS_HRPS[(k / 4) % 4];
+            let l = if hrp.starts_with("stake") || r.chance(1, 3) { 29 } else { 57 };
+            let payload = r.bytes(l);
+            let text = bech32_encode(hrp, &payload);
+            emit_fj(out, &format!("address:bech32:{hrp}"), json!(text), Type::Address, json!({"address": hx(&payload)}));
+            // one character changed: the checksum no longer holds and the text is not hex either
+            let mut bad: Vec<char> = text.chars().collect();
+            let at = hrp.len() + 1 + r.below((bad.len() - hrp.len() - 1) as u64) as usize;
+            bad[at] = if bad[at] == 'q' { 'p' } else { 'q' };
+            emit_fj(out, "address:bech32-bad-checksum", json!(bad.into_iter().collect::<String>()), Type::Address, Value::Null);
         }
         let txl = *r.pick(&[0usize, 1, 32]);
         let txid = r.bytes(txl);
@@ -256,7 +319,9 @@ pub fn run(opts: &Opts, out: &mut Emitter) {
         ("flag", json!(true)),
         ("qty", json!("12345678901234567890123")),
     ];
-    for k in 0..opts.n * 2 {
+    for k in 0..opts.n * 2 + 128 {
+        // (the last 128: a version name with a wide character at each position in turn)
+        let forced: Option<usize> = if k >= opts.n * 2 { Some(k - opts.n * 2) } else { None };
         // parameters split arbitrarily between args and env, undeclared extras, occasional bad values
         let mut args = serde_json::Map::new();
         let mut env = serde_json::Map::new();
@@ -283,12 +348,28 @@ pub fn run(opts: &Opts, out: &mut Emitter) {
         if r.chance(1, 3) {
             env.insert("other".into(), json!("x"));
         }
-        let (content, encoding, ver): (String, Value, String) = match if k % 3 == 0 { r.below(8) } else { 0 } {
+        let (content, encoding, ver): (String, Value, String) = match if forced.is_some() { 5 } else if k % 3 == 0 { r.below(8) } else { 0 } {
             1 => ("zz".into(), json!("hex"), version.to_string()),
             2 => (hx(&bytes), json!("base64"), version.to_string()),
             3 => (hx(&bytes[..bytes.len() / 2]), json!("hex"), version.to_string()),
             4 => (hx(&bytes), json!("hex"), "v1alpha8".into()),
-            5 => (hx(&bytes), json!("hex"), "v9".into()),
+            5 => {
+                // a version nobody knows: short, long, and long with a wide character at a position that rotates
+                let name = match if forced.is_some() { 1 } else { k % 9 } {
+                    0 => "v9".to_string(),
+                    3 => "v".repeat(1 + (k / 9) % 80),
+                    _ => {
+                        let mut t: Vec<char> = "v1beta0-this-is-not-a-version-anyone-has-ever-heard-of-before-xx".chars().collect();
+                        let (at, four) = match forced {
+                            Some(j) => (j % 64, j / 64 == 1),
+                            None => ((k / 9) % 64, k % 2 == 1),
+                        };
+                        t[at] = if four { '😀' } else { 'é' };
+                        t.into_iter().collect()
+                    }
+                };
+                (hx(&bytes), json!("hex"), name)
+            }
             6 => (b64(&bytes), json!("base64"), version.to_string()),
             7 => (format!("0x{}", hx(&bytes)), json!("hex"), version.to_string()),
             _ => (hx(&bytes), json!("hex"), version.to_string()),
